@@ -155,11 +155,12 @@ const (
 	DevTargetDownBefore
 	DevTargetDownAfter
 	DevPreempt // run the Arg-th other pending call (in arrival order) instead
+	DevZKLoss  // the calling process loses the coordination service just before this call
 )
 
 var devNames = map[DevKind]string{DevNone: "none", DevErr: "err", DevLost: "lost-reply", DevHang: "hang",
 	DevCrashBefore: "crash-before", DevCrashAfter: "crash-after", DevTargetDownBefore: "target-down-before",
-	DevTargetDownAfter: "target-down-after", DevPreempt: "preempt"}
+	DevTargetDownAfter: "target-down-after", DevPreempt: "preempt", DevZKLoss: "zk-loss"}
 
 func (k DevKind) String() string { return devNames[k] }
 
@@ -513,6 +514,9 @@ func (w *World) execute(c *Call, pt *Point, dev Deviation) {
 				s.Crash(w)
 			}
 		}
+	case DevZKLoss:
+		w.SetCut(w.hostOf(c.Proc), "zk", true)
+		w.ZK.SyncLinks()
 	}
 	if c.Kind == "sql" {
 		w.executeSQL(c, pt, dev)
